@@ -83,7 +83,7 @@ func ruleCCITTRunBoundary(c *core.Ctx) {
 				}
 			}
 		}
-		o.Require(n == 1, "expected one overflow comparison of total with Columns, found %d", n)
+		o.Shape(n == 1, "expected one overflow comparison of total with Columns, found %d", n)
 		// the terminating states end the run
 		src := c.Prog.Src(fn.Decl.Body)
 		o.Shape(strings.Contains(src, "st==S_TermW||st==S_TermB||st==S_EOL||r.err!=nil"), "the run must end at a terminating code, at EOL or on error")
@@ -140,7 +140,7 @@ func ruleFilterNames(c *core.Ctx) {
 				}
 			}
 		}
-		o.Require(len(cases) >= 10, "only %d filter names in MakeFilter", len(cases))
+		o.Shape(len(cases) >= 10, "only %d filter names in MakeFilter", len(cases))
 	})
 }
 
@@ -264,7 +264,7 @@ func ruleEncodeDecodeArgs(c *core.Ctx) {
 				}
 			}
 		}
-		o.Require(len(preds) == 3, "expected one version test in each of Info, Encode and Decode, found %v", preds)
+		o.Shape(len(preds) == 3, "expected one version test in each of Info, Encode and Decode, found %v", preds)
 		for _, p := range preds {
 			if p != preds[0] {
 				o.Fail("version tests differ: %v", preds)
@@ -299,7 +299,7 @@ func ruleOpenStreamFilterOrder(c *core.Ctx) {
 		inf := callVerticesInLoop(g, head, ".Info")
 		app := callVerticesInLoop(g, head, "pdf.appendFilter")
 		if len(enc) != 1 || len(inf) != 1 || len(app) != 1 {
-			o.Fail("the loop must call Encode, Info and appendFilter once each (found %d/%d/%d)", len(enc), len(inf), len(app))
+			o.Unrec("the loop must call Encode, Info and appendFilter once each (found %d/%d/%d)", len(enc), len(inf), len(app))
 			return
 		}
 		for _, cv := range [][]callV{enc, inf} {
@@ -380,7 +380,7 @@ func ruleLZWWidthAdvance(c *core.Ctx, rule string) {
 				}
 			}
 			if name == "(*Writer).Close" {
-				o.Require(n == 1, "Close must emit the pending code, found %d data emissions", n)
+				o.Shape(n == 1, "Close must emit the pending code, found %d data emissions", n)
 			}
 		}
 	})
@@ -528,7 +528,7 @@ func ruleCodecConstants(c *core.Ctx) {
 				}
 			}
 		}
-		o.Require(n == 5, "expected the five PNG predictors 10..14 to map to filter types 0..4, found %d", n)
+		o.Shape(n == 5, "expected the five PNG predictors 10..14 to map to filter types 0..4, found %d", n)
 	})
 }
 
@@ -585,7 +585,7 @@ func rulePaeth(c *core.Ctx, rule string) {
 		o.Count(3)
 		_ = info
 		if len(steps) != 3 {
-			o.Fail("expected the decision chain a / b / c, found %d steps", len(steps))
+			o.Unrec("expected the decision chain a / b / c, found %d steps", len(steps))
 			return
 		}
 		for i := range want {
@@ -841,7 +841,7 @@ func ruleRunLengthBounds(c *core.Ctx, rule string) {
 				}
 			}
 		}
-		o.Require(writes >= 3, "expected at least three writes to %s, found %d", field.Name(), writes)
+		o.Shape(writes >= 3, "expected at least three writes to %s, found %d", field.Name(), writes)
 	})
 }
 
@@ -1199,7 +1199,7 @@ func ruleBitAccumulatorReset(c *core.Ctx, rule string) {
 				}
 			}
 		}
-		o.Require(n >= 2, "resets of the bit count not found")
+		o.Shape(n >= 2, "resets of the bit count not found")
 	})
 }
 
@@ -1423,7 +1423,7 @@ func ruleASCII85PendingOutput(c *core.Ctx, rule string) {
 				o.FailAt(fn.Site(rs, ""), "%s: an error (possibly io.EOF) can be returned here while decoded bytes are still waiting in the leftover buffer; with a small read buffer the end of the data is lost", c.Prog.Pos(rs.Pos()))
 			}
 		}
-		o.Require(n >= 1, "error returns of Read not found")
+		o.Shape(n >= 1, "error returns of Read not found")
 	})
 }
 
